@@ -831,7 +831,21 @@ class C04(AstKindProp):
         rt = irj.get("returns")
         if rt is not None and "default" not in rt:
             irj["returns"] = None if r.random() < 0.7 else rt
+        # a directed family: a return entry with a default and LONG prose, emitted WITHOUT wrapping (the docstring of the
+        # generated function must then carry the prose on one line, whatever its length)
+        self._force_nowrap = False
+        if r.random() < 0.05:
+            irj["returns"] = {"typ": r.choice(["int", "str", "Optional[List[str]]"]), "doc": G.sized_prose(r, r.randint(85, 150)).rstrip(".,") + ".",
+                              "default": r.choice(["```n```", "```foo(1)```", "```[1, 2]```"])}  # fmt: skip
+            self._force_nowrap = True
         return irj
+
+    def gen_opts(self, r):
+        o = AstKindProp.gen_opts(self, r)
+        if getattr(self, "_force_nowrap", False):
+            o["word_wrap"] = False
+            o["emitted_before"] = False
+        return o
 
     # statement-level tie (ArgAttr.lean): param2argparse_param -> the add_argument keywords; parse_out_param on the
     # call as the parser sees it (after unparse / re-parse), with both values of require_default over the run
